@@ -69,6 +69,14 @@ def statement_checks(c, o):
             problems.append(f"namespace {ns} now holds sigrefs {a['sig']} (not validly signed for this repository)")
         if ns not in o.get("validAfter", []):
             problems.append(f"namespace {ns} changed and does not validate against its signed refs")
+        # second sentence: what the peer offered for this namespace fails a check, yet it changed
+        if not c.get("useRefsAt"):
+            s = c["srv"][ns - 1]
+            sf = s["sig"]["fl"]
+            listed_id = s["sig"]["ver"] != "none" and sf != "noId"
+            if s["sig"]["ver"] != "none" and (sf in ("forged", "rekeyed", "otherRepo", "ghost")
+                                              or (s["rid"] != "none" and not listed_id and "id" not in b["refs"])):
+                problems.append(f"namespace {ns} changed although its offered data ({s['sig']['ver']}.{sf}, rad/id {s['rid']}) fails a check")
     return problems
 
 
@@ -115,7 +123,7 @@ def run(ctx):
     ordered, nclasses = F.stratified(cases, key, 0, ctx.seed)
     if not thorough:
         ordered = ordered[:420]
-    verdicts, stats, ran = F.replay(ctx, ordered, threads, 780 if thorough else 60)
+    verdicts, stats, ran = F.replay(ctx, ordered, threads, int(os.environ.get('VERIF_FETCH_BUDGET', 780 if thorough else 60)))
     done = stats.get("evaluations", 0)
     if done < (60 if not thorough else 600):
         raise vlib.ToolError(f"only {done} scenarios replayed within the time budget")
@@ -130,40 +138,32 @@ def run(ctx):
     ctx.cov["scenario_classes_in_model"] = nclasses
     ctx.cov["replay_stats"] = stats
     ctx.cov["model_drift_records"] = drift
+    ctx.cov["model_drift_samples"] = getattr(ctx, "drift", [])[:5]
     ctx.cov["samples"] += [F.compact(c) + " => " + c["exp"]["result"] for c in ordered[:4]]
     ctx.cov["exhaustive"] = bool(thorough and stats.get("skipped_budget", 0) == 0)
     if drift:
         vlib.log(f"MODEL-DRIFT (not a violation): {drift} replayed scenarios where the real fetch refused more than the model")
     # 4. implementation -> spec
     n = 1200 if thorough else 90
-    ok, info, tres, recorded, recpath = F.record_and_validate(ctx, n, 4, threads)
-    if not ok:
-        at = F.reject_at(info)
-        bad = recorded[at - 1] if at and 0 < at <= len(recorded) else None
-        if bad is not None:
-            sc = {k: v for k, v in bad.items() if k != "out"}
-            oracle = bad["out"].get("oracle") or []
-            ctx.violation(f"{PROP} recorded: {F.compact(sc)} -> {bad['out']['result']} {'; '.join(oracle)[:160]}",
-                          "a run recorded from the real fetch is not a behaviour of Fetch.tla (or violates one of its invariants)",
-                          {"record": bad, "tlc": info})
-        else:
-            raise vlib.ToolError(f"trace validation rejected without a record index: {info}")
-    else:
-        bad_oracle = [r for r in recorded if r["out"].get("oracle")]
-        for r in bad_oracle:
-            sc = {k: v for k, v in r.items() if k != "out"}
+    recorded, accepted, rdrift = F.record_and_validate(ctx, PROP, n, 4, threads, statement_checks)
+    ok = accepted == len(recorded)
+    ctx.cov["traces_validated_against_impl"] += accepted
+    ctx.cov["evaluations"] += len(recorded)
+    ctx.cov["recorded_runs"] = len(recorded)
+    ctx.cov["recorded_runs_accepted_by_tlc"] = accepted
+    ctx.cov["model_drift_records"] += rdrift
+    ctx.cov["model_drift_samples"] = getattr(ctx, "drift", [])[:5]
+    ctx.cov["recorded_results"] = {k: sum(1 for r in recorded if r["out"]["result"] == k) for k in ("Success", "Failed", "Error", "Panic")}
+    ctx.cov["samples"] += [F.compact({k: v for k, v in recorded[0].items() if k != "out"}) + " => " + recorded[0]["out"]["result"]]
+    for r in recorded:
+        sc = {k: v for k, v in r.items() if k != "out"}
+        if r["out"].get("oracle"):
             ctx.violation(f"{PROP} oracle: {F.compact(sc)} -> {r['out']['result']} {'; '.join(r['out']['oracle'])[:200]}",
                           "validate_remote rejects a namespace changed by a recorded fetch", {"record": r})
-        ctx.cov["traces_validated_against_impl"] += len(recorded)
-        ctx.cov["evaluations"] += len(recorded)
-        ctx.cov["recorded_runs"] = len(recorded)
-        ctx.cov["recorded_results"] = {k: sum(1 for r in recorded if r["out"]["result"] == k) for k in ("Success", "Failed", "Error")}
-        ctx.cov["samples"] += [F.compact({k: v for k, v in recorded[0].items() if k != "out"}) + " => " + recorded[0]["out"]["result"]]
-        for r in recorded:
-            for l, l0 in zip(r["out"]["loc"], r["loc"]):
-                if l["sig"]["fl"] == "noRoot" and l["sig"] != l0:
-                    ctx.violation(f"{PROP} noRoot-accepted: namespace takes a signed refs blob without refs/rad/root",
-                                  "SignedRefs::verify accepts a refs blob that names no repository", {"record": r})
+        for l, l0 in zip(r["out"]["loc"], r["loc"]):
+            if l["sig"]["fl"] == "noRoot" and l["sig"] != l0:
+                ctx.violation(f"{PROP} noRoot-accepted: namespace takes a signed refs blob without refs/rad/root",
+                              "SignedRefs::verify accepts a refs blob that names no repository", {"record": r})
     # binding self-test (thorough): a corrupted record must be rejected
     if thorough and ok:
         import copy
@@ -173,6 +173,7 @@ def run(ctx):
             tgt["out"]["events"][0]["k"] = "skipped" if tgt["out"]["events"][0]["k"] != "skipped" else "created"
             p = ctx.write_cases(mut, "rec-mut.ndjson")
             ok2, _, _ = ctx.validate("TraceFetch", "TraceFetch.cfg", p, timeout=3000, label="self-test: corrupted record must be rejected")
+            ctx.cov["tlc_runs"][-1]["expected"] = "rejected"
             if ok2:
                 raise vlib.ToolError("self-test: a corrupted recorded run was accepted by TraceFetch")
     ctx.cov["observations"] = F.observations(ctx)
